@@ -33,6 +33,12 @@ func (d *Debugger) AddBreakpoint(bp *Breakpoint) bool {
 	d.wmu.Lock()
 	defer d.wmu.Unlock()
 
+	select {
+	case <-d.done:
+		return false
+	default:
+	}
+
 	for _, b := range d.breakpoints {
 		if b == bp {
 			return false
